@@ -34,8 +34,12 @@ RULES = {
     "determined by the dimension itself (the lazily parsed expression of its own text) - never a parameter of the call or a value "
     "computed from one: `self._eval_cache = (bindings, result)` keeps the caller's mapping object, which the caller goes on editing, "
     "so the key of the memo changes with it and a later evaluate() with other bindings answers with the old result",
+    "R10": "a call in a dimension string means the function of all its arguments: in the parser's function-call production the list that "
+    "receives one parsed expression per argument is handed to the SymPy constructor as it is - it is only ever appended to, never "
+    "filtered, sliced, sorted or rebound (`[a for a in args if not (a.is_Integer and a <= 0)]` turns `max(N - 5, 0)` into `N - 5`, which is "
+    "-2 for N = 3), and no branch of the production depends on which function is called",
 }
-FLOORS = {"R1": 6, "R2": 3, "R3": 3, "R4": 6, "R5": 18, "R6": 2, "R7": 15, "R8": 3, "R9": 1}
+FLOORS = {"R1": 6, "R2": 3, "R3": 3, "R4": 6, "R5": 18, "R6": 2, "R7": 15, "R8": 3, "R9": 1, "R10": 1}
 EXPLANATION = (
     "Derives the printer-side vocabulary from the sympy constructors called in SymbolicDim's methods and the "
     "parser-side grammar (tiers, tokens, associativity, operator→SymPy form) from the recursive-descent parser's "
@@ -782,7 +786,41 @@ def rule_r9(ctx):
     ctx.require(n >= 1, "no field store outside __init__ found in SymbolicDim (the lazy expression cache was expected)")
 
 
+def rule_r10(ctx):
+    p = ctx.repo.cls("onnx_ir._symbolic_shapes:_ExpressionParser")
+    f = p.methods.get("_parse_function_call")
+    ctx.require(f is not None, "_ExpressionParser._parse_function_call not found")
+    # the argument list: the local that receives self._parse_expr() through append
+    lists = {c.func.value.id for c in calls_in(f) if isinstance(c.func, ast.Attribute) and c.func.attr == "append" and isinstance(c.func.value, ast.Name)
+             and c.args and isinstance(c.args[0], ast.Call) and isinstance(c.args[0].func, ast.Attribute) and c.args[0].func.attr.startswith("_parse")}
+    # … or the local bound to what a parser method of its own returns (`args = self._parse_args()`)
+    lists |= {a.targets[0].id for a in own_nodes(f.node) if isinstance(a, ast.Assign) and len(a.targets) == 1 and isinstance(a.targets[0], ast.Name)
+              and isinstance(a.value, ast.Call) and isinstance(a.value.func, ast.Attribute) and a.value.func.attr.startswith("_parse") and norm(a.value.func.value) == f.params[0]
+              and any(isinstance(r, ast.Return) and isinstance(r.value, ast.Call) and any(isinstance(x, ast.Starred) and isinstance(x.value, ast.Name) and x.value.id == a.targets[0].id
+                                                                                  for x in r.value.args) for r in own_nodes(f.node))}
+    ctx.require(len(lists) == 1, "_parse_function_call: the list of parsed arguments was not found")
+    args = next(iter(lists))
+    # … is bound once (to an empty list) and spread into the call that builds the result
+    binds = [a for a in own_nodes(f.node) if isinstance(a, (ast.Assign, ast.AnnAssign, ast.AugAssign)) and any(
+        isinstance(t, ast.Name) and t.id == args for t in (a.targets if isinstance(a, ast.Assign) else [a.target]))]
+    mut = [c for c in calls_in(f) if isinstance(c.func, ast.Attribute) and isinstance(c.func.value, ast.Name) and c.func.value.id == args
+           and c.func.attr in ("remove", "pop", "clear", "sort", "reverse", "insert", "extend", "__delitem__")]
+    dels = [d for d in own_nodes(f.node) if isinstance(d, ast.Delete) and any(isinstance(t, ast.Subscript) and norm(t.value) == args for t in d.targets)]
+    rets = [r for r in own_nodes(f.node) if isinstance(r, ast.Return) and isinstance(r.value, ast.Call)]
+    spread = [r for r in rets if any(isinstance(a, ast.Starred) and isinstance(a.value, ast.Name) and a.value.id == args for a in r.value.args)]
+    extra = [b for b in binds[1:]] + mut + dels
+    ok = len(binds) == 1 and not extra and len(spread) == len(rets) and bool(spread)
+    bad = (extra or [r for r in rets if r not in spread] or [f.node])[0]
+    ctx.check("R10", f"_parse_function_call: every parsed argument reaches the constructor (`{args}` is only appended to and spread)", ok, f, bad,
+              f"`{norm(bad)[:80]}`: the list of parsed arguments is changed (or not passed on whole) between parsing and the call of the SymPy constructor - arguments are dropped or "
+              "reordered, so the expression does not mean the function of the arguments that were written (`max(N - 5, 0)` parsed as `N - 5`), and the text SymPy prints "
+              "for a dimension no longer re-parses to the same evaluations",
+              how="bindings and mutating calls of the argument list in the function-call production; the result is `<constructor>(*<list>)`",
+              construct="argument list of a parsed call altered before the constructor")
+
+
 def run(ctx):
+    rule_r10(ctx)
     rule_r9(ctx)
     rule_r8(ctx)
     rule_r7(ctx)
